@@ -68,7 +68,8 @@ def check_unsat(fmls, timeout_ms=30000, cvc5_fallback=True, crosscheck=False, wa
     fmls = list(fmls)
     strings = _has_strings(fmls)
     # z3's sequence solver is erratic; give it a short first try on string VCs and let cvc5 take over
-    s.set("timeout", min(timeout_ms, 4000) if (strings and cvc5_fallback) else timeout_ms)
+    first = min(timeout_ms, 4000) if strings else min(timeout_ms, 8000)
+    s.set("timeout", first if cvc5_fallback else timeout_ms)
     s.add(fmls)
     t = time.time()
     r = s.check()
@@ -92,6 +93,19 @@ def check_unsat(fmls, timeout_ms=30000, cvc5_fallback=True, crosscheck=False, wa
         if cr == "unsat":
             return Result("unsat", "cvc5", ms + cms)
         if cr == "sat":
+            # let z3 produce the model if it can within the full budget
+            s.set("timeout", timeout_ms)
+            if s.check() == z3.sat:
+                return Result("sat", "cvc5+z3", ms + cms, s.model() if want_model else None)
             return Result("sat", "cvc5", ms + cms, None, note="cvc5 found a model (not extracted)")
+        if first < timeout_ms:  # both gave up quickly: z3 once more with the full budget
+            s.set("timeout", timeout_ms)
+            t2 = time.time()
+            r2 = s.check()
+            ms2 = (time.time() - t2) * 1000
+            if r2 == z3.unsat:
+                return Result("unsat", "z3", ms + cms + ms2)
+            if r2 == z3.sat:
+                return Result("sat", "z3", ms + cms + ms2, s.model() if want_model else None)
         return Result("unknown", "z3+cvc5", ms + cms, note=str(s.reason_unknown()))
     return Result("unknown", "z3", ms, note=str(s.reason_unknown()))
